@@ -564,7 +564,7 @@ class MinFlowDecomp(pathmodel.AbstractPathModelDAG): # Note that we inherit from
         
         self._lowerbound_k = max(self._lowerbound_k, math.ceil(math.log2(len(all_weights))))
 
-        self._lowerbound_k = max(self._lowerbound_k, stG.get_width(edges_to_ignore=self.edges_to_ignore))
+        self._lowerbound_k = max(self._lowerbound_k, stG.get_width(edges_to_ignore=stG.source_sink_edges.union(self.edges_to_ignore)))
 
         if self.optimization_options.get("use_min_gen_set_lowerbound", MinFlowDecomp.use_min_gen_set_lowerbound):  
             mingenset_lowerbound = self._get_lowerbound_with_min_gen_set()
